@@ -248,4 +248,26 @@ def c12_random_laws(seed, n):
     return {"violates": False, "cases": cases}
 
 
-CALLS = {"c12_coincidence": c12_coincidence, "c12_laws": c12_laws, "c12_type": c12_type, "c12_scope": c12_scope, "c12_nan": c12_nan, "c12_random_laws": c12_random_laws}
+
+def c12_config_kind(kind="list", via="setter"):
+    from flow.record import RecordDescriptor, base
+
+    KINDS = {"list": lambda: ["n", "q"], "tuple": lambda: ("n", "q"), "set": lambda: {"n", "q"}, "frozenset": lambda: frozenset({"n", "q"}), "dict keys": lambda: {"n": 1, "q": 2}.keys(), "generator expression": lambda: (x_ for x_ in ["n", "q"]),
+             "iterator": lambda: iter(["n", "q"]), "map object": lambda: map(str, ["n", "q"]), "filter object": lambda: filter(None, ["n", "", "q"])}
+    D = RecordDescriptor("c12/cfg", [("varint", "n"), ("string", "s")])
+    a = D(n=1, s="x")
+    b = D(n=2, s="x", _generated=a._generated)
+    saved = base.IGNORE_FIELDS_FOR_COMPARISON
+    try:
+        if via == "setter":
+            base.set_ignored_fields_for_comparison(KINDS[kind]())
+            cfg, eq, ne, he = set(base.IGNORE_FIELDS_FOR_COMPARISON), a == b, a != b, hash(a) == hash(b)
+        else:
+            with base.ignore_fields_for_comparison(KINDS[kind]()):
+                cfg, eq, ne, he = set(base.IGNORE_FIELDS_FOR_COMPARISON), a == b, a != b, hash(a) == hash(b)
+    finally:
+        base.IGNORE_FIELDS_FOR_COMPARISON = saved
+    bad = cfg != {"n", "q"} or not eq or ne or not he
+    return {"violates": bad, "detail": f"ignored fields given as a {kind} through the {via}: configuration {sorted(cfg)}, == {eq}, != {ne}, equal hashes {he}"}
+
+CALLS = {"c12_config_kind": c12_config_kind, "c12_coincidence": c12_coincidence, "c12_laws": c12_laws, "c12_type": c12_type, "c12_scope": c12_scope, "c12_nan": c12_nan, "c12_random_laws": c12_random_laws}
